@@ -336,6 +336,18 @@ func TestReadAtGrid(t *testing.T) {
 				}
 			}
 		}
+		// a few very large single reads (beyond any fan-out or read-ahead bound an
+		// implementation might have) on files that are long enough
+		if fs.Virtual && fs.Size > 64<<20 {
+			for _, l := range []int{16 << 20, 16<<20 + 1, 20<<20 + 7, 33 << 20} {
+				for _, off := range []int64{0, 3*CS + 17} {
+					if !judgeReadAt(run, c, s, j, l, 0, off) {
+						bad++
+					}
+					run.Stat("very_large_readat_calls", 1)
+				}
+			}
+		}
 		run.Stat("files_read", 1)
 		if bad > 0 {
 			run.Stat("readat_calls_failing_a_clause", int64(bad))
